@@ -13,14 +13,45 @@ TRUSTED_BASE = []
 ASSUMPTIONS = []
 
 def gen_cases(engine, rng, tier):
-    n = 2000 if tier == 'quick' else 40000
+    k = 1 if tier == 'quick' else 25
     out = []
-    for i in range(n):
+    for i in range(700 * k):
         out.append(G.gen_case(rng, macros=False, mutated=(i % 3 == 0)))
+    for i in range(500 * k):
+        out.append(G.gen_case(rng, macros=True, mutated=(i % 4 == 0)))
+    for i in range(600 * k):
+        out.append(G.gen_limit_case(rng))
+    for i in range(900 * k):
+        out.append(G.gen_macro_case(rng))
+    for i in range(500 * k):
+        out.append(G.gen_sanitise_case(rng))
     return out
 
+def _obs(c_out):
+    w = c_out.split()
+    rc = next((x for x in w if x.startswith('R') and (x[1:].lstrip('-').isdigit())), None)
+    nq = 0
+    for x in w:
+        if x == rc: break
+        if x != 'Q': nq += 1
+    return rc, nq, w
+
 def nontrivial(case, c_out):
-    return ' R' in c_out and c_out.count(' T') >= 2
+    rc, nq, w = _obs(c_out)
+    return rc is not None and nq >= 2
+
+def distribution(results):
+    d = {}
+    for r in results:
+        rc, nq, w = _obs(r['c'])
+        key = 'result_' + (rc[1:] if rc else r['c'].split()[0] if r['c'] else 'empty')
+        d[key] = d.get(key, 0) + 1
+        if rc:
+            b = 'queries_0_1' if nq <= 1 else 'queries_2_5' if nq <= 5 else 'queries_6_10' if nq <= 10 else 'queries_11' if nq == 11 else 'queries_12plus'
+            d[b] = d.get(b, 0) + 1
+            if 'ENULL' not in w: d['spfexp_set'] = d.get('spfexp_set', 0) + 1
+        if r['spec'] == 'pre': d['outside_precondition'] = d.get('outside_precondition', 0) + 1
+    return d
 
 LEVEL_TEXT = 'tbd'
 LEVEL_NOTE = 'tbd'
